@@ -123,6 +123,16 @@ def c10():
         ref2 = cls(PROBLEMS[pn](), verbose=0, **kw); ref2.solve(2); at2 = state_of(ref2); r2 = cls.restore(d, step=2, new_checkpoint_dir=os.path.join(base, f"c10_{sn}_{pn}_new")); R.case((sn, pn, "step2"), None)
         bad = same_state(at2, state_of(r2), skip=("policy",))      # the policy of iteration 2 was never computed by the saving solver (VI family)
         if bad: R.fail("c10.restore_explicit_step", f"restore(step=2) differs from the state at iteration 2 in {bad}", dict(inp, step=2))
+    # load_checkpoint() into a hand-built solver that was constructed with OTHER state-shaping options (periodic VI: another period): it takes over the saved
+    # solver's state - period, history, index - and then behaves like the saving solver
+    dpp = os.path.join(base, "c10_pvi_period"); kwp = dict(gamma=0.95, epsilon=1e-5, clear_value_history_on_convergence=False)
+    w4 = PVI(Forest(S=6), period=4, verbose=0, checkpoint_dir=dpp, checkpoint_frequency=1, max_checkpoints=2, enable_async_checkpointing=False, **kwp); w4.solve(6); wait(w4)
+    ref = PVI(Forest(S=6), period=4, verbose=0, **kwp); stref = ref.solve(400); R.case(("load_other_period",), dict(history="written with period 4 (6 sweeps); loaded into a solver constructed with period 2; solve()"))
+    try:
+        rd = PVI(Forest(S=6), period=2, verbose=0, **kwp); rd.load_checkpoint(dpp); strd = rd.solve(400)
+        if int(rd.period) != 4 or int(strd.info.iteration) != int(stref.info.iteration) or not np.allclose(np.asarray(strd.values), np.asarray(stref.values), atol=1e-10):
+            R.fail("c10.load_checkpoint_takes_over_saved_state", "a solver that loaded a checkpoint written with another period does not continue like the saving solver", dict(writer_period=4, reader_period=2, gamma=0.95), dict(period=int(rd.period), stop=int(strd.info.iteration)), dict(period=4, stop=int(stref.info.iteration)))
+    except Exception as ex: R.fail("c10.load_checkpoint_takes_over_saved_state", f"{type(ex).__name__} after loading a checkpoint written with another period", dict(writer_period=4, reader_period=2), str(ex)[:200])
     # overrides take effect for later saves; the original directory is untouched
     d = os.path.join(base, "c10_over"); s = VI(Forest(S=11, p=0.2), verbose=0, gamma=0.95, epsilon=1e-9, checkpoint_dir=d, checkpoint_frequency=2, max_checkpoints=2); s.solve(4); wait(s); before = {f: os.path.getmtime(os.path.join(d, f)) for f in os.listdir(d)}
     nd = os.path.join(base, "c10_over_new"); r = VI.restore(d, new_checkpoint_dir=nd, checkpoint_frequency=3, max_checkpoints=1, enable_async_checkpointing=False); st0 = state_of(r); r.solve(5); wait(r); R.case(("overrides",), dict(new_dir=True, frequency=3, max_checkpoints=1, async_=False))
